@@ -526,3 +526,39 @@ example : ∃ T : Matrix (Fin 2) (Fin 2) ℝ, T ≠ 0 ∧ ‖T ^ 1‖ * ‖(Tᵀ
     norm_num
 
 end IrisVerif.C15
+
+/-! ## statement audit (round 5): non-vacuity of the remaining hypotheses, the rejection branch -/
+
+namespace IrisVerif.C15
+open Matrix
+open IrisVerif IrisVerif.Acov
+
+
+/-- non-vacuity of `lag_cross_moment`: for every `𝒜`, `Γ₀` there IS a family of cross moments meeting its two hypotheses
+(stationary on the diagonal, propagated by `𝒜` below it), namely `M t s = 𝒜^(t−s) Γ₀` -/
+theorem stationary_family_exists {n : Type} [Fintype n] [DecidableEq n] {K : Type} [CommRing K] (A G0 : Matrix n n K) :
+    ∃ M : ℕ → ℕ → Matrix n n K, (∀ t, M t t = G0) ∧ (∀ t s, s ≤ t → M (t + 1) s = A * M t s) := by
+  refine ⟨fun t s => A ^ (t - s) * G0, fun t => by simp, fun t s hst => ?_⟩
+  show A ^ (t + 1 - s) * G0 = A * (A ^ (t - s) * G0)
+  rw [Nat.succ_sub hst, pow_succ', Matrix.mul_assoc]
+
+/-- **The rejection branch**: the model answers `none` ("no unique stationary covariance") exactly when its checked Lyapunov
+solve of the stable block does — never for any other reason, and every order is then refused together -/
+theorem acov_none_iff (s : Sol) (sel : List Nat) (k : Nat) :
+    acov s sel k = none ↔ lyapunov (TaStable s) (sigmaU s) = none := by
+  unfold acov
+  cases lyapunov (TaStable s) (sigmaU s) <;> simp
+
+-- non-vacuity of `acorr_spec`: variances 4 and 9 with r = (1/2, 1/3) meet its hypothesis `hr` (rational square roots)
+example : ∀ i : Fin 2, if 0 < (!![4, 1; 1, 9] : Matrix (Fin 2) (Fin 2) ℚ) i i
+    then (0 ≤ (![1/2, 1/3] : Fin 2 → ℚ) i ∧ (![1/2, 1/3] : Fin 2 → ℚ) i * (![1/2, 1/3] : Fin 2 → ℚ) i * (!![4, 1; 1, 9] : Matrix (Fin 2) (Fin 2) ℚ) i i = 1)
+    else (![1/2, 1/3] : Fin 2 → ℚ) i = 0 := by
+  intro i; fin_cases i <;> simp <;> norm_num
+
+-- non-vacuity of `lyapunov_sound`, `acov_none_iff`: the model's solver answers on an AR(1) (1/2, unit variance → 4/3) and
+-- refuses a unit root
+example : (lyapunov (QMat.ofRows [[1/2]]) (QMat.ofRows [[1]])).isSome = true := by decide +kernel
+example : (lyapunov (QMat.ofRows [[1]]) (QMat.ofRows [[1]])).isSome = false := by decide +kernel
+
+
+end IrisVerif.C15
